@@ -308,6 +308,9 @@ impl Ingester {
         if batch.num_rows() == 0 {
             return Ok(());
         }
+        // A batch without a usable timestamp column can never be flushed; refuse it before it
+        // is logged and buffered (it would fail every flush and every WAL replay).
+        self.extract_min_timestamp(&batch)?;
         let start_time = std::time::Instant::now();
         let batch_size = batch.get_array_memory_size();
         let row_count = batch.num_rows() as u64;
@@ -662,18 +665,29 @@ impl Ingester {
     /// them (when the buffer has meanwhile switched schema they stay in the WAL, which is not
     /// truncated past them, and are recovered at the next start).
     async fn flush_batches(&self, batches: Vec<RecordBatch>, seqs: Vec<u64>) -> Result<()> {
+        let mut uploading = false;
         let mut registered = false;
         let result = self
-            .flush_batches_inner(&batches, &seqs, &mut registered)
+            .flush_batches_inner(&batches, &seqs, &mut uploading, &mut registered)
             .await;
         if result.is_err() && !registered {
-            let mut buffer = self.buffer.write().await;
-            if batches
-                .first()
-                .map(|b| buffer.schema_compatible(b))
-                .unwrap_or(false)
-            {
-                buffer.prepend(batches, seqs);
+            if uploading {
+                // Storage or catalog failure: retry with the next flush
+                let mut buffer = self.buffer.write().await;
+                if batches
+                    .first()
+                    .map(|b| buffer.schema_compatible(b))
+                    .unwrap_or(false)
+                {
+                    buffer.prepend(batches, seqs);
+                }
+            } else {
+                // The batches could not even be encoded; retrying cannot help and they must not
+                // keep the WAL from being truncated
+                let mut unflushed = self.unflushed_seqs.lock().unwrap();
+                for seq in &seqs {
+                    unflushed.remove(seq);
+                }
             }
         }
         result
@@ -683,6 +697,7 @@ impl Ingester {
         &self,
         batches: &[RecordBatch],
         seqs: &[u64],
+        uploading: &mut bool,
         registered: &mut bool,
     ) -> Result<()> {
         if batches.is_empty() {
@@ -706,12 +721,6 @@ impl Ingester {
         let path = self.generate_path();
         debug!(path = %path, size_bytes = parquet_size, "Writing Parquet file");
 
-        // Upload to object storage
-        self.object_store
-            .put(&path.clone().into(), parquet_bytes.into())
-            .await?;
-
-        // Register in metadata store
         let chunk_metadata = ChunkMetadata {
             path: path.clone(),
             min_timestamp: self.extract_min_timestamp(&combined)?,
@@ -719,6 +728,14 @@ impl Ingester {
             row_count: combined.num_rows() as u64,
             size_bytes: parquet_size,
         };
+
+        // Upload to object storage
+        *uploading = true;
+        self.object_store
+            .put(&path.clone().into(), parquet_bytes.into())
+            .await?;
+
+        // Register in metadata store
         self.metadata.register_chunk(&path, &chunk_metadata).await?;
         *registered = true;
         #[cfg(feature = "verif-hooks")]
